@@ -113,16 +113,50 @@ def convert_rules(ctx):
     R.check("C15-D2b formatting covers every byte once", len(so) == 1 and so[0].value == want, "row split", mod=sp.module, node=sp.node,
             function=ctx.fq(sp), expected="[data[i:i+columns] for i in range(0, len(data), columns)]", found=repr(so[0].value)[:240] if so else "?")
     fr = repo.func(CONV, "KeyConverter._format_row_of_bytes")
-    src = ast.unparse(fr.node)
-    R.check("C15-D2b formatting covers every byte once", "for b in data" in src and "f'0x{b:02x}, '" in src, "each byte of the row, in order, as 0x%02x",
-            mod=fr.module, node=fr.node, function=ctx.fq(fr), expected="text += f'0x{b:02x}, ' for b in data", found="format not recognised")
+    fro = [o for o in ev.outcomes(fr) if o.kind == "return"]
+
+    def flat_cat(t):
+        if isinstance(t, App) and t.op in ("cat", "+"):
+            out = []
+            for x in t.args:
+                out += flat_cat(x)
+            return out
+        return [t]
+
+    def loop_acc(v):
+        """loopout(_, _, <acc>) -> the pieces appended per iteration (accumulator itself removed), or None"""
+        if not (isinstance(v, App) and v.op == "loopout"):
+            return None
+        parts = flat_cat(v.args[2])
+        if not (parts and isinstance(parts[0], App) and parts[0].op == "loopvar" and parts[0].args[2] == Const("")):
+            return None
+        return parts[1:]
+    ok = False
+    if len(fro) == 1:
+        pieces = loop_acc(fro[0].value)
+        loops_ = [e for e in fro[0].effects if isinstance(e, App) and e.op == "eff:loop"]
+        if pieces is not None and len(loops_) == 1 and loops_[0].args[0] == d and len(pieces) == 3:
+            ok = pieces[0] == Const("0x") and pieces[2] == Const(", ") and isinstance(pieces[1], App) and pieces[1].op == "fmt" \
+                and pieces[1].args[0] == App("elem", (d,)) and isinstance(pieces[1].args[1], Const) and "02x" in str(pieces[1].args[1].v)
+    R.check("C15-D2b formatting covers every byte once", ok, "each byte of the row, in order, as 0x%02x",
+            mod=fr.module, node=fr.node, function=ctx.fq(fr), expected="text += f'0x{b:02x}, ' for b in data", found=repr(fro[0].value)[:200] if fro else "format not recognised")
     pa = repo.func(CONV, "KeyConverter._prepare_array")
-    psrc = ast.unparse(pa.node)
-    ok = "self._split_bytes_per_row(public_key_data)" in psrc.replace("self._get_public_key_data()", "public_key_data") \
-        and "text = text[:-2]" in psrc and psrc.count("_get_public_key_data") == 1
+    pao = [o for o in ev.outcomes(pa) if o.kind == "return"]
+    ok = False
+    if len(pao) == 1:
+        def fcall(name, *args):
+            return App("call", (Ref("func", repo.func(CONV, "KeyConverter." + name)), SELF) + tuple(args))
+        SPLIT = fcall("_split_bytes_per_row", fcall("_get_public_key_data"))
+        parts = flat_cat(pao[0].value)
+        # <all rows>[:-2] + newline
+        if len(parts) == 2 and parts[1] == Const("\n") and isinstance(parts[0], App) and parts[0].op == "slice" \
+                and parts[0].args[1:] == (Const(None), Const(-2), Const(None)):
+            pieces = loop_acc(parts[0].args[0])
+            loops_ = [e for e in pao[0].effects if isinstance(e, App) and e.op == "eff:loop"]
+            ok = pieces == [fcall("_format_row", App("elem", (SPLIT,))), Const("\n")] and len(loops_) == 1 and loops_[0].args[0] == SPLIT
     R.check("C15-D2b formatting covers every byte once", ok, "every row of the public key data is emitted; only the trailing ', ' -> ',\\n' of the last row is removed",
             mod=pa.module, node=pa.node, function=ctx.fq(pa), expected="for row in split(data): text += format(row) + newline; text = text[:-2] + newline",
-            found="shape not recognised")
+            found=repr(pao[0].value)[:240] if pao else "shape not recognised")
     frow = repo.func(CONV, "KeyConverter._format_row")
     fo = [o for o in ev.outcomes(frow) if o.kind == "return"]
     R.check("C15-D2b formatting covers every byte once", bool(fo) and "meth:strip" in repr(fo[0].value) and "_indentation" in repr(fo[0].value),
